@@ -820,6 +820,22 @@ func checkDefaultPort(c *Ctx) {
 				continue
 			}
 			port := ev.Args[len(ev.Args)-1]
+			// the request itself is handed on as it was received: no field is defaulted, clamped or rewritten on the way to the
+			// validation that the per-run function performs (a bound of 0 silently turned into the default is executed, not rejected)
+			if len(ev.Args) >= 2 {
+				req := ev.Args[len(ev.Args)-2]
+				same := req.String() == "param:params"
+				if !same && req.Op == "struct" {
+					// the parameter lives in an addressed local: field by field it still holds what the caller passed
+					same = len(req.Args) > 0
+					for _, kv := range req.Args {
+						if len(kv.Args) != 1 || kv.Args[0].String() != "param:params."+kv.Name {
+							same = false
+						}
+					}
+				}
+				R.Check(same, "R19.3", fn+"#request-unmodified", ev.Instr.Pos(), fn, "the runs are started with the caller's parameters unmodified", "the runs are started with "+req.String()+" instead of the caller's parameters: a field is rewritten before the range validation sees it, so an out-of-range request is executed with other values instead of being rejected")
+			}
 			f1, s1 := atomTrue(ip.Atoms, func(t *core.Term) bool { return t.String() == "(param:params.Port == 0)" })
 			if !f1 {
 				// the negated spelling
